@@ -1152,7 +1152,8 @@ std::ostream& expression_t::print(std::ostream& os, bool old) const
         get(2).print(os, old);
         if (get(0).get_value() >= 0)
             get(0).print(os << "; ", old);
-        if (get(4).is_true()) {
+        // `<> p` / `[] p` is stored with the Boolean constant true as fifth operand; `p U 1` is not that form
+        if (get(4).empty() || (get(4).get_kind() == CONSTANT && get(4).get_type().is(Constants::BOOL) && get(4).get_value() == 1)) {
             os << (flag ? "]([] " : "](<> ");
             get(3).print(os, old) << ")";
         } else {  // Pr[...](p U q)
